@@ -47,6 +47,59 @@ fn file_text(menu: &[Line], s: &[u16]) -> String {
     t
 }
 
+/// bytes of a tiny compiled system dictionary: the grammar the in-text observation hangs the
+/// character definition on
+fn grammar_bytes() -> &'static [u8] {
+    static BYTES: std::sync::OnceLock<&'static [u8]> = std::sync::OnceLock::new();
+    BYTES.get_or_init(|| {
+        let b = compile_system(&Matrix::distinct(2, 2).to_text(), &rows_to_csv(&[Row::new("a", 0, 0, 1, P_NOUN)])).expect("tiny dictionary");
+        Box::leak(b.into_boxed_slice())
+    })
+}
+
+/// the classes a character is given inside a text (what plugins and OOV providers see) must be
+/// the same union: the probe characters in ascending, descending and alternating order
+pub fn compare_in_text(def_text: &str, def: &RefCharDef, probes: &[u32], ctx: &str, o: &mut Outcome) {
+    use sudachi::input_text::{InputBuffer, InputTextIndex};
+    let chars: Vec<char> = probes.iter().filter_map(|&cp| char::from_u32(cp)).collect();
+    if chars.is_empty() {
+        return;
+    }
+    let mut orders: Vec<Vec<char>> = vec![chars.clone(), chars.iter().rev().cloned().collect()];
+    let mut alt = Vec::new();
+    for i in 0..chars.len() {
+        alt.push(if i % 2 == 0 { chars[i / 2] } else { chars[chars.len() - 1 - i / 2] });
+    }
+    orders.push(alt);
+    for order in orders {
+        let text: String = order.iter().collect();
+        o.evaluations += 1;
+        let r = catch(|| {
+            let cc = CharacterCategory::from_reader(def_text.as_bytes()).map_err(|e| e.to_string())?;
+            let mut g = sudachi::dic::grammar::Grammar::parse(grammar_bytes(), sudachi::dic::header::Header::STORAGE_SIZE).map_err(|e| e.to_string())?;
+            g.set_character_category(cc);
+            let mut buf = InputBuffer::new();
+            buf.reset().push_str(&text);
+            buf.start_build().map_err(|e| e.to_string())?;
+            buf.build(&g).map_err(|e| e.to_string())?;
+            Ok::<_, String>((0..order.len()).map(|i| buf.cat_at_char(i)).collect::<Vec<_>>())
+        });
+        match r {
+            Err(p) => o.fail(Failure::panic(&format!("{} building a text buffer", ctx), &p)),
+            Ok(Err(e)) => o.fail(Failure::new("text-buffer-error", format!("{}: {}", ctx, e))),
+            Ok(Ok(obs)) => {
+                for (i, c) in order.iter().enumerate() {
+                    let exp = def.classes(*c);
+                    if obs[i] != exp {
+                        o.fail(Failure::new("classes-in-text-differ", format!("{}: in the text {:?} character {} U+{:04X} has classes {:?}, union of covering lines is {:?}", ctx, text.escape_unicode().to_string(), i, *c as u32, obs[i], exp)));
+                        break;
+                    }
+                }
+            }
+        }
+    }
+}
+
 pub fn compare(cc: &CharacterCategory, def: &RefCharDef, probes: &[u32], ctx: &str, o: &mut Outcome) {
     for &cp in probes {
         let c = match char::from_u32(cp) {
@@ -115,6 +168,7 @@ impl Space for DefSpace {
                 let def = RefCharDef::parse(&text);
                 let ctx = format!("file {:?}", text);
                 compare(&cc, &def, &self.probes, &ctx, &mut o);
+                compare_in_text(&text, &def, &self.probes, &ctx, &mut o);
                 // overlapping / nested / adjacent lines make a file non-trivial
                 let mut nt = false;
                 for (i, &a) in s.iter().enumerate() {
